@@ -73,6 +73,13 @@ func enumSignLengths() []*Case {
 		add(&Op{Fn: "PrivSign", ML: ml, Opt: Opt{Form: ml % 2}})
 		add(&Op{Fn: "Sign", ML: ml})
 	}
+	for _, ml := range []int{4095, 4096, 4097, 65535, 65536, 65537, 70001, 131071, 131072, 131073, 200003} {
+		for k := 0; k < 3; k++ { // three seeds each: with and without spare capacity behind the message
+			add(&Op{Fn: "PrivSign", ML: ml, Opt: Opt{Form: k % 2}})
+			add(&Op{Fn: "PrivSign", ML: ml, Opt: Opt{Ctx: 1 + k}})
+			add(&Op{Fn: "Sign", ML: ml})
+		}
+	}
 	for _, ml := range []int{0, 1, 63, 65, 128} {
 		add(&Op{Fn: "PrivSign", Opt: Opt{Hash: 1}, ML: ml, Alias: 9})
 		add(&Op{Fn: "PrivSign", Opt: Opt{Hash: 1, Form: 1}, ML: ml, Alias: 9})
